@@ -93,11 +93,13 @@ func TestVerifC14(t *testing.T) {
 		nReaders := tp.Range(1, 3)
 		withInitial := tp.Choose(3) != 0
 		withRetryFaults := tp.Choose(4) == 0
+		stickyIndex := tp.Choose(5) == 0
 		r.Set("cfg", cfg.String())
 		r.Set("writers", nWriters)
 		r.Set("readers", nReaders)
 		r.Set("initial_snapshot", withInitial)
 		r.Set("transient_errors", withRetryFaults)
+		r.Set("one_index_upload_fails_for_good", stickyIndex)
 		simrt.Run(r.T, w.s, 15*time.Minute, func() {
 			w.begin()
 			defer w.end()
@@ -140,6 +142,10 @@ func TestVerifC14(t *testing.T) {
 				pr := w.newProc("writer")
 				if withRetryFaults {
 					pr.cl.F = simbe.Faults{ErrBefore: 40, ErrAfter: 40, Budget: 2}
+				}
+				if stickyIndex {
+					// the first (or second) index file this writer tries to store cannot be stored at all
+					w.arm(pr, fault{Kind: "sticky", Op: "Save", Type: backend.IndexFile, At: 1 + i%2})
 				}
 				tr := trees[i]
 				delay := time.Duration(tp.Choose(4)) * 150 * time.Millisecond
